@@ -98,6 +98,16 @@ def run(ctx):
         pts, fam = rdpfam.random_points(ctx, nmax)
         which = rng.choice(WHICH + ['rdp', 'rdp'])
         one(ctx, which, pts, rand_cfg(ctx, which, pts), fam)
+    # long inputs (> 1024 points): the step bound is LINEAR in n, and nothing may treat long ranges differently
+    for which in (['rdp', 'rdp', 'grdp'] if quick else ['rdp'] * 12 + ['grdp', 'rdp_fixed', 'mp_grdp', 'min_point_rdp'] * 4):
+        pts, fam = rdpfam.long_curve(rng)
+        cfg = rand_cfg(ctx, which, pts)
+        if 't' in cfg and cfg.get('cost') != 'r2':
+            cfg['t'] = rng.choice([0.05, 0.2, 0.5])
+        for kk in ('k', 'm'):
+            if kk in cfg:
+                cfg[kk] = min(cfg[kk], 60)
+        one(ctx, which, pts, cfg, fam)
     if not quick:
         for name, a in gen.traces().items():
             for which in WHICH:
